@@ -53,4 +53,11 @@ Definition sl_whole_sim (fuel_bp fuel_walk : nat) (net : list (Link (F:=F))) (tp
   sl_full_walk fuel_walk (env_of_path p rp) pts (path_offset_end p) fmax
     ({| sl_st := st; sl_cache := cache; sl_fb := fb; sl_idx := idx |}, con).
 
+(* TrainSimBuilder::make_set_speed_train_sim(network, route, trace) followed by walk() *)
+Definition ss_whole_sim (fuel : nat) (net : list (Link (F:=F))) (tp : TrainParams (F:=F)) (route : list Z)
+    (rp : ResParams (F:=F)) (fmax : F) (times speeds : list F) (st : TState (F:=F)) (cache : ResCache)
+    (con : Consist (F:=F)) : res ((TState (F:=F) * ResCache) * Consist (F:=F)) :=
+  let? p := extend net (new_path tp) route in
+  ss_full_walk fuel (env_of_path p rp) times speeds fmax ((st, cache), con).
+
 End WholeSim.
